@@ -245,6 +245,20 @@ fn check_number(rep: &mut Report, n: u16, caps: &[usize]) {
                             break;
                         }
                     }
+                    // the same truncated frames inside a longer buffer (bytes follow the frame): the missing elements
+                    // must not be found in what comes after the frame
+                    for t in (2..need).rev().take(48) {
+                        let mut g = make_frame(&p[..t]);
+                        g.extend_from_slice(&[0xFF; 96]);
+                        rep.transitions += 1;
+                        match catch(|| next_msg_frame(&g).1.map(|fr| outcome_class(&fr.get_message()))) {
+                            Ok(Some("Corrupt")) => {}
+                            other => {
+                                fail(rep, format!("site{}:truncated-accepted-in-stream", si), format!("full list (count {}) truncated to {} of {} payload bytes and followed by other bytes decodes to {:?}", v, t, need, other.map_err(|pn| pn.message)), &p, t);
+                                break;
+                            }
+                        }
+                    }
                     rep.outcome("truncation-sweep");
                     rep.traces += 1;
                 }
@@ -393,7 +407,7 @@ pub fn c15(ctx: &Ctx) -> (Report, Meta) {
     rep.sample(json!({"number":1302,"nested":"all (links 0..=7) x (characters 0..=31)"}));
     let _ = ctx;
     let meta = Meta {
-        rule: "for each list-/string-bearing message (table of 40 numbers / 52 count fields with their capacities; MSM, 1059, 1065, 1230 are C10/C16; the 1029 text is handled by its two counters, below): the count field is located from the parse trace; for every value the count field can hold and three element fills (zeros, all-ones, index-coded) the harness-written frame is decoded; count <= capacity must give a typed message that re-encodes (payload <= 1023 bytes, count field on the wire = number of elements) and decodes back to an equal message; count > capacity must give Corrupt with the body present; every truncation of the full-capacity frame must give Corrupt; 1302: all (list length, string length) pairs; 1029: texts of 0..=127 characters of every mix of 1-/2-/3-/4-byte characters in a family of patterns: character counter (bits 57..64) = number of characters, code-unit counter (bits 64..72) = number of bytes, text bytes follow, decoding returns the text. states = (message, count field, value, fill); transitions = decode/encode executions".into(),
+        rule: "for each list-/string-bearing message (table of 40 numbers / 52 count fields with their capacities; MSM, 1059, 1065, 1230 are C10/C16; the 1029 text is handled by its two counters, below): the count field is located from the parse trace; for every value the count field can hold and three element fills (zeros, all-ones, index-coded) the harness-written frame is decoded; count <= capacity must give a typed message that re-encodes (payload <= 1023 bytes, count field on the wire = number of elements) and decodes back to an equal message; count > capacity must give Corrupt with the body present; every truncation of the full-capacity frame must give Corrupt, also when other bytes follow the frame in the buffer (last 48 truncations); 1302: all (list length, string length) pairs; 1029: texts of 0..=127 characters of every mix of 1-/2-/3-/4-byte characters in a family of patterns: character counter (bits 57..64) = number of characters, code-unit counter (bits 64..72) = number of bytes, text bytes follow, decoding returns the text. states = (message, count field, value, fill); transitions = decode/encode executions".into(),
         exhaustive: true,
         bounds: json!({"counts":"every value of every count field","fills":3,"truncations":"every length of the full-capacity frame"}),
         assumptions: vec!["capacities are those documented in the current tree (31 legacy/residual/FKP/1013, 15 MAC, 60/63/39 SSR, 31 descriptor strings, 7 database links)".into()],
